@@ -46,7 +46,7 @@ class Ctx:
             import math
             return Rat(Fraction(math.sqrt(max(0.0, float(x.frac())))))
         # reuse the executor's own witness when the radicand is the same polynomial (premise-free identity check)
-        for (e, y) in s.S.witnesses:
+        for (e, y) in s.st.wit:
             idn = (x.n * e.d == e.n * x.d)
             if isinstance(idn, bool):
                 if idn: return Rat(y)
